@@ -9,7 +9,12 @@ def run(ctx):
     F, R = ctx.facts, ctx.report
     R.explanation = "CALL-R: the source is only read through Read::read_exact on the BufReader (2 sites); CONST capacity covers the largest message."
     R.not_decided = ["std BufReader/read_exact semantics (trusted: fills the whole slice, retries Interrupted)"]
-    lib_call.check_read_exact(ctx, FUNCS, r"^std::io::Read$", r"^std::io::BufReader<")
+    # every hand-written function / closure / coroutine body of the module (helpers introduced by a refactoring included)
+    funcs = sorted(p for p, b in ctx.facts.bodies.items() if p.startswith("read::") and not b["derived"] and "::tests::" not in p)
+    for a in FUNCS:
+        if ctx.facts.body(a) is None and a.endswith("next_message_slice"):
+            funcs.append(a)  # reported as ANCHOR-MISSING by the callee
+    lib_call.check_read_exact(ctx, funcs, r"^std::io::Read$", r"^std::io::BufReader<")
     R.floor("CALL-R", 2)
     c = F.consts.get("read::DEFAULT_MESSAGE_MAX_LEN")
     if c is None:
